@@ -14,6 +14,34 @@ R = z3.RealSort()
 PROBE = z3.Int('probe!idx')
 
 
+class SDict:
+    """read-only dict with symbolic string keys: membership predicate + value function (inputs such as the per-degree
+    target maps of a ROADM)"""
+
+    def __init__(self, has, get, label=None, wrap=None):
+        self.has = has
+        self.get = get
+        self.label = label
+        self.wrap = wrap or (lambda t: SV(t))
+
+    def key(self, it, k):
+        if isinstance(k, str):
+            return it.p.strconst(k)
+        if isinstance(k, SV) and k.kind == 'str':
+            return k.t
+        raise Unsupported('symbolic dict with non-string key')
+
+    def contains(self, it, k):
+        return mk(self.has(self.key(it, k)))
+
+    def getitem(self, it, k):
+        kt = self.key(it, k)
+        if not it.p.spec_mode:
+            if not it.p.truth(mk(self.has(kt))):
+                raise it.p.pyexc('KeyError')
+        return self.wrap(self.get(kt))
+
+
 class SumTerm:
     """Sigma_{i<n} s(i) as an uninterpreted constant plus witness-skolemised lemma schemas"""
 
@@ -167,6 +195,8 @@ def getitem(it, base, idx):
     p = it.p
     if isinstance(base, Opt):
         base = p.unwrap(base)
+    if isinstance(base, SDict):
+        return base.getitem(it, idx)
     if isinstance(idx, Opt):
         idx = p.unwrap(idx)
     if base is None:
@@ -1006,7 +1036,7 @@ def np_full(it, a, k):
             raise Unsupported('full with 2-D shape')
     n = nterm(n)
     if isinstance(x, Opt):
-        raise Unsupported('full() of an optional value')
+        x = None if it.p.branch(x.isnone) else x.val
     if isinstance(x, (list, tuple)):
         x = as_vec(it, x)
     if isinstance(x, Vec):
@@ -1317,6 +1347,17 @@ def value_attr(it, o, name):
             return list_method(it, list(o), name)
     if isinstance(o, SList):
         return slist_method(it, o, name)
+    if isinstance(o, SDict):
+        if name == 'get':
+            def g(it, a, k):
+                kt = o.key(it, a[0])
+                d = a[1] if len(a) > 1 else None
+                if it.p.truth(mk(o.has(kt))):
+                    return o.wrap(o.get(kt))
+                return d
+            return Builtin('sdict.get', g)
+        if name == 'keys':
+            return Builtin('sdict.keys', lambda it, a, k: o)
     if isinstance(o, SV) and o.kind == 'str':
         if name in ('lower', 'upper', 'strip'):
             f = it.engine.str_fun(name)
